@@ -31,18 +31,31 @@ pub proof fn lemma_days_in_year(dt: DateTime)
 }
 // injectivity: two valid date-times that denote the same second are the same date-time, hence
 // "the result has the same seconds" means "the same fields as converting, adding, converting back"
+// mixed-radix digits are unique: the day count and the h / m / s digits are recoverable from the total
+#[verifier::spinoff_prover]
+pub proof fn lemma_mixed_radix(d: int, h: int, m: int, s: int)
+    requires 0 <= h < 24, 0 <= m < 60, 0 <= s < 60
+    ensures ({
+        let t = ((d * 24 + h) * 60 + m) * 60 + s;
+        &&& t % 60 == s && (t / 60) % 60 == m && (t / 3600) % 24 == h && t / 86400 == d
+    })
+{
+    let t1 = d * 24 + h;
+    let t2 = t1 * 60 + m;
+    let t3 = t2 * 60 + s;
+    assert(t3 % 60 == s && t3 / 60 == t2);
+    assert(t2 % 60 == m && t2 / 60 == t1);
+    assert(t1 % 24 == h && t1 / 24 == d);
+    assert(t3 / 3600 == t1) by { assert(t3 / 3600 == (t3 / 60) / 60); }
+    assert(t3 / 86400 == d) by { assert(t3 / 86400 == (t3 / 3600) / 24); }
+}
+#[verifier::spinoff_prover]
 pub proof fn thm_secs_injective(a: DateTime, b: DateTime)
     requires valid(a), valid(b), secs(a) == secs(b)
     ensures a.year == b.year, a.month == b.month, a.day == b.day, a.hour == b.hour, a.min == b.min, a.sec == b.sec
 {
-    assert(days(a) == days(b) && a.hour == b.hour && a.min == b.min && a.sec == b.sec) by {
-        // mixed-radix digits are unique
-        let da = days(a); let db = days(b);
-        assert(a.sec == b.sec) by { assert(secs(a) % 60 == a.sec); assert(secs(b) % 60 == b.sec); }
-        assert(a.min == b.min) by { assert((secs(a) / 60) % 60 == a.min); assert((secs(b) / 60) % 60 == b.min); }
-        assert(a.hour == b.hour) by { assert((secs(a) / 3600) % 24 == a.hour); assert((secs(b) / 3600) % 24 == b.hour); }
-        assert(da == db) by { assert(secs(a) / 86400 == da); assert(secs(b) / 86400 == db); }
-    }
+    lemma_mixed_radix(days(a), a.hour as int, a.min as int, a.sec as int);
+    lemma_mixed_radix(days(b), b.hour as int, b.min as int, b.sec as int);
     lemma_days_in_year(a);
     lemma_days_in_year(b);
     if a.year < b.year { lemma_dby_mono(a.year + 1, b.year as int); }
